@@ -28,7 +28,7 @@ META = {
     "dictionary's own iteration, total table over an Enum, constant key of a constant table) or is one of the reviewed sites whose key domain is argued to be inside the "
     "writer's domain; every decimal division has a divisor that a validator or guard keeps non-zero; no raise/exit depends only on option values except the documented "
     "conflicts; no membership test guards a read from a different container; the iterator and the fraction-numbering loop apply the same to-date predicate.",
-    "restated": 'a valid input is not rejected: exact, time-ordered overdraft test (C08.a, b, d), no lot lost or hidden from the matcher (heap typestate, schedule traversal, time-ordered input)',
+    "restated": 'a valid input is not rejected: exact, time-ordered overdraft test (C08.a, b, d), no lot lost or hidden from the matcher (heap typestate, schedule traversal, time-ordered input); every transaction type a taxable event can carry is routed to a sheet the shipped template contains (C14.a, b)',
     "not_decided": "absence of every exception for every input (ezodf, extreme values, recursion); 'assets fully sold / income only' as such.",
     "assumptions": ["mypy's dict typing of receivers is sound", "reviewed-site reasons hold as long as the obligations they cite (C07.e, C10.a, C14.a/b) hold"],
 }
